@@ -472,13 +472,14 @@ pub fn gen_wio(rng: &mut Rng) -> RawCase {
             }
             format!("{}({})", f, a.join(", "))
         };
-        let pick = if rng.chance(1, 30) { 40 + rng.below(6) } else { let x = rng.below(55); if x >= 40 { x + 6 } else { x } };
+        let pick = if rng.chance(1, 30) { 40 + rng.below(6) } else { let x = rng.below(56); if x >= 40 { x + 6 } else { x } };
         let l = match pick {
             // block headers that fail: resuming must not enter the block half way
             50 => format!("FOR {} = 1 TO 1 / Z0%\nPRINT {}\nNEXT", rng.pick(&["A%", "C!"]), i1),
             51 => format!("FOR A% = 1 TO 3 STEP {} / Z0%\nPRINT A%\nIF A% > 5 THEN END\nNEXT", i1),
             52 => format!("SELECT CASE {} / Z0%\nCASE 1\nPRINT \"one\"\nCASE ELSE\nPRINT \"else\"\nEND SELECT", i1),
             53 => format!("IF {} / Z0% = 1 THEN\nPRINT \"then\"\nELSEIF 1 / Z0% = 2 THEN\nPRINT \"elseif\"\nELSE\nPRINT \"else\"\nEND IF", i1),
+            61 => format!("IF A% = 77 THEN\nPRINT \"then\"\nELSEIF A% = {} THEN\nPRINT ({})\nGOTO {}\nELSE\nPRINT \"else\"\nEND IF", i1, call, rng.pick(&["Lb9", "Lb9", "NoSuchLabel", "InProc"])),
             54 => "Cnt".to_string(),
             55 => "Outer 2".to_string(),
             56 => format!("WHILE {} / Z0% = 1\nPRINT \"w\"\nEND\nWEND", i1),
@@ -544,6 +545,7 @@ pub fn gen_wio(rng: &mut Rng) -> RawCase {
         };
         lines.push(l);
     }
+    lines.push("Lb9:".into());
     lines.push("END".into());
     if handler {
         lines.push("Hnd:".into());
